@@ -8,6 +8,8 @@ known rows exactly v.  The (game, K) pairs are those the histories reach.
 """
 from __future__ import annotations
 
+import os
+
 import numpy as np
 
 from .. import em, games, gm
@@ -28,7 +30,7 @@ REAL_VS_STUB = {"real": ["incomplete_cooperative.bounds (both SA computers)", "g
 ASSUMPTIONS = ["the for-all-games / for-all-K part is only sampled along the histories drawn",
                "exact mode (integer / dyadic values): exact comparisons; float mode: tolerance 1e-9*max(1,max|v|)",
                "premise (hidden game superadditive, K contains the minimal information) is re-checked independently"]
-PROBES = ["torn_then_recomputed", "scribble_then_compute", "negative_values", "registry_game", "exact_mode",
+PROBES = ["large_n", "torn_then_recomputed", "scribble_then_compute", "negative_values", "registry_game", "exact_mode",
           "float_mode", "unreveal_then_compute"]
 TIERS = {
     "quick": {"runs": 120000, "wall": 40, "batch": 48, "shrink_s": 40},
@@ -88,8 +90,42 @@ def draw_hidden(sim: Sim, n: int) -> tuple[np.ndarray, bool, str]:
     return v, exact, "harness"
 
 
+def run_large(sim: Sim) -> None:
+    """Rare: n = 7..11 with the cached computer (the uncached one is O(3^n) Python objects): a short history
+    around one or two recomputes, negative and non-zero-normalised values included."""
+    n = 7 + sim.choose(5, "large-n")
+    rng = sim.np_rng("large-values")
+    base = rng.integers(-6, 7, 2 ** n).astype(np.float64) / sim.pick([1.0, 4.0], "large-denominator")
+    if sim.flip(1, 2, "all-negative-singletons"):
+        for i in range(n):
+            base[1 << i] = -abs(base[1 << i]) - 1.0
+    values = games.sa_closure(base, n)
+    sim.config.update(n=n, computer="superadditive_cached", exact=True, source="harness-large")
+    sim.probe("large_n")
+    if (values < 0).any():
+        sim.probe("negative_values")
+    h = gm.GameHarness(sim, n, "superadditive_cached", values)
+    with sim.guard("C01.operation_raised"):
+        extra = [e for e in h.explorable if rng.random() < 0.02]
+        h.reset_minimal(extra)
+        h.compute()
+    check_containment(sim, h, True)
+    for _ in range(sim.choose(3, "large-ops")):
+        with sim.guard("C01.operation_raised"):
+            unk = [i for i in h.explorable if i not in h.kv]
+            kn = h.known_nonminimal()
+            if kn and sim.flip(1, 2, "large-unreveal"):
+                h.unreveal(sim.pick(kn, "which"))
+            elif unk:
+                h.reveal(sim.pick(unk, "which"))
+            h.compute()
+        check_containment(sim, h, True)
+
+
 def run(sim: Sim) -> None:
     thorough = sim.tier == "thorough"
+    if sim.choose(60 if thorough else 300, "large-mode") == 1 or os.environ.get("VERIF_FORCE_LARGE"):
+        return run_large(sim)
     n = 3 + sim.choose(5 if thorough else 4, "n")
     comp_name = sim.pick(games.SA_COMPUTERS, "computer")
     values, exact, source = draw_hidden(sim, n)
